@@ -710,6 +710,11 @@ static int PolicyVerificationResult_create(KSI_PolicyVerificationResult **result
 		res = KSI_OUT_OF_MEMORY;
 		goto cleanup;
 	}
+	/* Make the object safe to be released by the cleanup if anything below fails. */
+	tmp->ref = 1;
+	tmp->ruleResults = NULL;
+	tmp->policyResults = NULL;
+	memset(&tmp->finalResult, 0, sizeof(tmp->finalResult));
 
 	res = KSI_RuleVerificationResultList_new(&tmp->ruleResults);
 	if (res != KSI_OK) {
@@ -726,7 +731,6 @@ static int PolicyVerificationResult_create(KSI_PolicyVerificationResult **result
 		goto cleanup;
 	}
 
-	tmp->ref = 1;
 	*result = tmp;
 	tmp = NULL;
 	res = KSI_OK;
